@@ -249,6 +249,26 @@ def make_server(env, session_factory, identity_provider=None, control=None, **kw
     return MysqlServer(session_factory=session_factory, control=control, identity_provider=identity_provider, **kw)
 
 
+def run_stream_writes(writes, start_seq=0):
+    """MysqlStream.write(payload, drain=flag) for each (payload, flag) in turn, then one drain(); returns raw bytes written."""
+    env = Env(own_sleep=False)
+    try:
+        reader = asyncio.StreamReader(loop=env.loop)
+        w = FakeWriter(env)
+        stream = MysqlStream(reader, w)
+        stream.seq.value = start_seq
+
+        async def go():
+            for p, d in writes:
+                await stream.write(p, drain=d)
+            await stream.drain()
+
+        env.loop.run_until_complete(go())
+        return bytes(w.data)
+    finally:
+        env.close()
+
+
 def run_stream_reader(chunks, eof=True):
     """Feed `chunks` to a real MysqlStream.read loop; returns the list of deliveries after each chunk."""
     env = Env(own_sleep=False)
